@@ -578,6 +578,21 @@ int yr_arena_load_stream(YR_STREAM* stream, YR_ARENA** arena)
   if (read != hdr.num_buffers)
     return ERROR_CORRUPT_FILE;
 
+  // The buffers are stored back to back right after the buffer table, each
+  // entry of the table says where its buffer starts. A table that doesn't
+  // describe exactly that layout has been damaged: loading it anyway would
+  // cut the buffers at the wrong places.
+  uint64_t expected_offset = sizeof(YR_ARENA_FILE_HEADER) +
+                             sizeof(YR_ARENA_FILE_BUFFER) * hdr.num_buffers;
+
+  for (int i = 0; i < hdr.num_buffers; ++i)
+  {
+    if (buffers[i].offset != expected_offset)
+      return ERROR_CORRUPT_FILE;
+
+    expected_offset += buffers[i].size;
+  }
+
   YR_ARENA* new_arena;
 
   FAIL_ON_ERROR(yr_arena_create(hdr.num_buffers, 10485, &new_arena))
